@@ -15,6 +15,8 @@ from . import c10_lib as L
 CLAIM = dict(
     text="Machine-checked theorems (coq/Props/C10.v, closed under the global context): for Gillespie_SIR/SIS, every graph and every full-data run, the per-node histories are the projections of ONE event log and "
          "the arrays its running counts, hence summary(histories) = arrays whenever event times are strictly increasing (C10_gillespie_summary_equals_arrays; with C18's flag independence these are the plain-mode arrays); "
+         "the same for the event-driven fast_nonMarkov_SIR / fast_SIR loop (coq/Props/C10esir.v: histories = per-node transforms of one event log, arrays = its running counts, summary = arrays "
+         "with strict times and, with ties, the last array row per distinct time; consistent_b accepts every model run); "
          "and over an executable model of Simulation_Investigation "
          "(summary with its delta tables, sorted distinct times, running sums and the 'not in delta' skip; node_status/get_statuses; S/I/R/t; "
          "_transform_to_node_history_ for SIR and SIS): for ALL histories that start at tmin, are time-ordered and use possible statuses, "
@@ -526,6 +528,8 @@ def run(run, tier):
             per['Gillespie_' + kind] = {'proved': 'C10_gillespie_summary_equals_arrays', 'cases': res.n, 'mismatches': len(res.mism), 'oracle_failures': len(res.oracle_bad)}
             total.n += res.n
     xsim.run_others(run, 'C10', EoN, sim, tier, per, total, 'full_vs_arrays')
+    from . import esirx
+    esirx.part(run, tier, 'C10', props, per)
     stats['scripted_simulators'] = per
     # ---- verdicts
     for key, (size, what, c) in spec_bad.items():
@@ -556,6 +560,9 @@ def run(run, tier):
 
 
 def replay(rp):
+    if rp['replay'].get('checker'):
+        from . import esirx
+        return esirx.replay(rp)
     EoN = C.import_eon()
     import networkx as nx
     c = rp['replay'].get('case')
